@@ -7,6 +7,7 @@ import (
 	"go/types"
 	"math/big"
 	"strings"
+	"time"
 
 	"golang.org/x/tools/go/ssa"
 )
@@ -81,13 +82,23 @@ func (u *Unit) constVal(st *State, c *ssa.Const) Val {
 
 func (u *Unit) strLit(s string) StrV {
 	// contents as a chain of stores over the zero array (short) or opaque (long)
-	arr := zeroArr
-	if len(s) <= 64 {
-		for i := 0; i < len(s); i++ {
-			if s[i] != 0 {
-				arr = app(SArr, "store", arr, IntLit(int64(i)), IntLit(int64(s[i])))
+	var arr *Term
+	if len(s) <= 80 {
+		lit := s
+		arr = MkArr(func(i *Term) *Term {
+			if i.IsInt {
+				k := i.I.Int64()
+				if i.I.IsInt64() && k >= 0 && k < int64(len(lit)) {
+					return IntLit(int64(lit[k]))
+				}
+				return IntLit(0)
 			}
-		}
+			v := IntLit(0)
+			for k := len(lit) - 1; k >= 0; k-- {
+				v = Ite(Eq(i, IntLit(int64(k))), IntLit(int64(lit[k])), v)
+			}
+			return v
+		})
 	} else {
 		key := "strlit:" + s
 		if c, ok := u.litArr[key]; ok {
@@ -127,6 +138,11 @@ func (u *Unit) runFunc(st *State, fn *ssa.Function, args []Val, bind []Val, dept
 
 func (u *Unit) overBudget() bool {
 	if u.aborted {
+		return true
+	}
+	if time.Since(u.start) > time.Duration(u.Cfg.UnitSec)*time.Second {
+		u.limit("path cap: unit time limit %ds exceeded", u.Cfg.UnitSec)
+		u.aborted = true
 		return true
 	}
 	if u.Paths > u.Cfg.MaxPaths {
@@ -188,7 +204,7 @@ func (u *Unit) enterBlock(st *State, fr *Frame, b *ssa.BasicBlock, pred *ssa.Bas
 
 func (u *Unit) runInstrs(st *State, fr *Frame, b *ssa.BasicBlock, i int, k Kont) {
 	for ; i < len(b.Instrs); i++ {
-		if st.dead {
+		if st.dead || u.aborted {
 			return
 		}
 		switch in := b.Instrs[i].(type) {
@@ -478,11 +494,8 @@ func (u *Unit) store(st *State, fr *Frame, pos token.Pos, p PtrV, v Val) {
 			return
 		}
 		av := cur.(ArrV)
-		na := app(SArr, "store", av.Arr, p.ElemIdx, v.(*Term))
-		if len(na.S) > 400 {
-			j := Const("j", SInt)
-			na = u.defArr("A", "j", Ite(Eq(j, p.ElemIdx), v.(*Term), Select(av.Arr, j)))
-		}
+		oldA, ei, nv := av.Arr, p.ElemIdx, v.(*Term)
+		na := MkArr(func(j *Term) *Term { return Ite(Eq(j, ei), nv, Select(oldA, j)) })
 		u.storePath(st, base, ArrV{Arr: na, N: av.N})
 	default:
 		u.storePath(st, p, v)
